@@ -40,9 +40,9 @@ def accept_check(text, scratch):
     sp = os.path.join(scratch, 'u.x')
     open(sp, 'w', encoding='latin-1').write(text)
     try:
-        r = subprocess.run([build.exe('xtool'), 'accept', sp], stdout=subprocess.PIPE, stderr=subprocess.PIPE, env=driver.san_env(), cwd=scratch, timeout=120)
+        r = subprocess.run([build.exe('xtool'), 'accept', sp], stdout=subprocess.PIPE, stderr=subprocess.PIPE, env=driver.san_env(), cwd=scratch, timeout=30)
     except subprocess.TimeoutExpired:
-        return 'hang: xtool accept did not finish within 120 s'
+        return 'hang: xtool accept did not finish within 30 s'
     if r.returncode != 0:
         err = r.stderr.decode(errors='replace')
         if 'stack-overflow' in err and not plain_crashes(open(sp, 'rb').read()):
@@ -62,9 +62,9 @@ def accept_check(text, scratch):
             return 'emit: %s wrote a binary file' % nm
     # the production executable: terminates, exit status 0 or 1
     try:
-        p = subprocess.run([toolchain.tool('xcmp'), sp, '-o', os.path.join(scratch, 'u.bin')], stdout=subprocess.PIPE, stderr=subprocess.PIPE, cwd=scratch, timeout=60)
+        p = subprocess.run([toolchain.tool('xcmp'), sp, '-o', os.path.join(scratch, 'u.bin')], stdout=subprocess.PIPE, stderr=subprocess.PIPE, cwd=scratch, timeout=20)
     except subprocess.TimeoutExpired:
-        return 'hang: xcmp did not finish within 60 s'
+        return 'hang: xcmp did not finish within 20 s'
     if p.returncode not in (0, 1):
         return 'crash: the xcmp executable died with status %d' % p.returncode
     if (p.returncode == 0) != o['actions'][0]['ok']:
